@@ -72,10 +72,12 @@ def _member(n, traj, ram, disk):
 
 
 def _group(job):
-    n, traj, s = job
+    n, traj, s = job[:3]
     members = []
     ref = None
     splits = [(ram, s - ram) for ram in range(0, s + 1)]
+    if len(job) > 3:                       # only the listed RAM counts (plus the two pure splits)
+        splits = [(ram, s - ram) for ram in sorted(set(job[3]) | {0, s}) if 0 <= ram <= s]
     for ram, disk in splits:
         if n > 1 and ram + disk == 0:
             continue
@@ -108,7 +110,9 @@ def _gen(job):
 def check_witness(data, show=False):
     w = data["witness"]
     res = []
-    for m in _group((w["n"], w["traj"], w["ram"] + w["disk"])):
+    tot = w["ram"] + w["disk"]
+    job = (w["n"], w["traj"], tot) if tot <= 40 else (w["n"], w["traj"], tot, (w["ram"],))
+    for m in _group(job):
         seen = set()
         for pred, detail in m["viol"]:
             if pred not in seen:
@@ -130,6 +134,12 @@ def run(prop, args):
     # beyond the all-totals box: few units (where the ranking of stack positions decides), every split
     NB2, SB2 = (72, 8) if tier == "quick" else (160, 10)
     jobs += [(n, tr, s) for n in range(NB + 1, NB2 + 1) for tr in ("maximum", "revolve") for s in range(2, SB2 + 1)]
+    # many units (more than 100 stack positions; almost store-all, so the streams are short)
+    for n in ((103, 110, 130, 257) if tier == "quick" else (103, 110, 130, 200, 257, 300)):
+        for tr in ("maximum", "revolve"):
+            for sx in sorted({101, 102, n - 3, n - 2, n - 1}):
+                if 2 <= sx <= n - 1:
+                    jobs.append((n, tr, sx, (1, 2, sx // 2, sx - 1)))
     nbox = len(jobs)
     jobs += _gen((tier, args.seed, 60 if tier == "quick" else 1500))
     res = R.pmap(_group, jobs, chunksize=2)
@@ -159,10 +169,14 @@ def run(prop, args):
                        "k = min(declared RAM units, n-1, stack positions actually used)"]
 
     def shrink(b, w):
+        def gj(c):
+            tot = c["ram"] + c["disk"]
+            return (c["n"], c["traj"], tot) if tot <= 40 else (c["n"], c["traj"], tot, (c["ram"],))
+
         def fails(c):
-            return any(p == b[1] for m in _group((c["n"], c["traj"], c["ram"] + c["disk"])) if m["cfg"] == c or b[1] == "split-changes-shape" for p, _ in m["viol"])
+            return any(p == b[1] for m in _group(gj(c)) if m["cfg"] == c or b[1] == "split-changes-shape" for p, _ in m["viol"])
         small = C.shrink(w, fails, budget=120)
-        for m in _group((small["n"], small["traj"], small["ram"] + small["disk"])):
+        for m in _group(gj(small)):
             for p, d in m["viol"]:
                 if p == b[1]:
                     return m["cfg"], d
